@@ -2,7 +2,8 @@
    up = strings.ToUpper (arbitrary); a collection is the ordered list of its entries. *)
 From Coq Require Import List ZArith Bool Lia.
 Import ListNotations.
-Require Import Collections CollectionsProofs ExprParser.
+Require Import Collections CollectionsProofs ExprParser MustacheVars MustacheVarsProofs.
+From Coq Require Import Permutation.
 Open Scope Z_scope.
 
 (* the reported names are exactly the identifiers in variable position, in written order (rvars of the compiled program =
@@ -42,6 +43,42 @@ Section C18.
   Proof. exact (create_variables_no_dup up). Qed.
 End C18.
 
+(* the mustache variable map (a Go map: the iteration order is not specified, so every statement is made for all
+   permutations of the entries); low = strings.ToLower (arbitrary); names are the non-empty words the parser reports *)
+Section C18_map.
+  Variable low : str -> str.
+  (* whether a name resolves never depends on the iteration order *)
+  Theorem C18_map_found_any_order : forall m m' n, Permutation m m' -> mfound low m n = mfound low m' n.
+  Proof. exact (mfound_perm low). Qed.
+  (* GetVariable returns an entry whose key equals the name ignoring case, exactly when one exists *)
+  Theorem C18_map_lookup_ignores_case : forall m n,
+    (mget low m n = None /\ mfound low m n = false) \/
+    (exists e, mget low m n = Some e /\ In e m /\ n <> [] /\ msame low (fst e) n = true /\ mfound low m n = true).
+  Proof. exact (mget_found low). Qed.
+  (* with keys that are distinct ignoring case the lookup is a function of the map, not of the iteration order *)
+  Theorem C18_map_lookup_any_order : forall m m' n, case_distinct low m -> Permutation m m' -> mget low m' n = mget low m n.
+  Proof. exact (mget_perm low). Qed.
+  (* automatic variables: entries and values already there are kept, what is added is empty and is a reported name,
+     every reported name resolves, no second key ignoring case is created, and the resulting map is the same set of
+     entries whatever iteration orders were met *)
+  Theorem C18_map_automatic_variables : forall names, Forall (fun n => n <> []) names -> forall m,
+    (exists ext, mcreate low m names = m ++ ext /\ Forall (fun e => snd e = [] /\ In (fst e) names) ext) /\
+    (forall n, In n names -> mfound low (mcreate low m names) n = true) /\
+    (case_distinct low m -> case_distinct low (mcreate low m names)) /\
+    (forall m', Permutation m m' -> Permutation (mcreate low m names) (mcreate low m' names)).
+  Proof.
+    intros names Hn m. split; [exact (mcreate_ext low names Hn m)|]. split; [exact (mcreate_resolves low names Hn m)|].
+    split; [exact (mcreate_case_distinct low names Hn m)|]. exact (mcreate_perm low names Hn m).
+  Qed.
+End C18_map.
+(* the premise "distinct ignoring case" is necessary: known finding K1 *)
+Theorem C18_map_lookup_order_dependent_refuted : exists m m' n, Permutation m m' /\ mget ascii_low m n <> mget ascii_low m' n.
+Proof. exact mget_order_dependent_refuted. Qed.
+Example C18_map_nonvacuous :
+  let m := mcreate ascii_low [([66], [53])] [[97]; [98]; [65]] in
+  m = [([66], [53]); ([97], [])] /\ mget ascii_low m [65] = Some ([97], []) /\ Forall (fun n : str => n <> []) [[97]; [98]; [65]].
+Proof. vm_compute. repeat split; repeat constructor; discriminate. Qed.
+
 (* non-vacuity *)
 Example C18_nonvacuous :
   let up := map (fun c => if (97 <=? c) && (c <=? 122) then c - 32 else c) in
@@ -57,3 +94,8 @@ Print Assumptions C18_remove_is_list_deletion.
 Print Assumptions C18_clear_and_clear_values.
 Print Assumptions C18_automatic_variables.
 Print Assumptions C18_one_entry_per_name.
+Print Assumptions C18_map_found_any_order.
+Print Assumptions C18_map_lookup_ignores_case.
+Print Assumptions C18_map_lookup_any_order.
+Print Assumptions C18_map_automatic_variables.
+Print Assumptions C18_map_lookup_order_dependent_refuted.
